@@ -17,6 +17,10 @@ type wrun struct {
 	data   []byte // data accepted by Write since construction / Reset
 	hist   string
 	closed bool
+	// scratch is the caller's buffer: every Write gets its data in this one buffer (the io.Copy pattern), and the
+	// buffer is overwritten as soon as Write returns. A Writer may not keep a reference to it (io.Writer contract);
+	// one that does compresses garbage and fails the round-trip oracles.
+	scratch []byte
 }
 
 const (
@@ -48,7 +52,19 @@ func (r *wrun) do(x *mc.Exec, prop string, op int, data []byte, name string) (n 
 	pi := Guard(func() {
 		switch op {
 		case opWrite:
-			n, err = r.w.Write(data)
+			if len(data) == 0 {
+				n, err = r.w.Write(data)
+				break
+			}
+			if cap(r.scratch) < len(data) {
+				r.scratch = make([]byte, len(data))
+			}
+			buf := r.scratch[:len(data)]
+			copy(buf, data)
+			n, err = r.w.Write(buf)
+			for i := range buf {
+				buf[i] = 0xA5
+			}
 		case opFlush:
 			err = r.w.Flush()
 		case opClose:
